@@ -262,5 +262,5 @@ def run(tier, seed, replay):
         "rule": "fault matrix (missing input, directory as input, empty/invalid glob, file matched twice, missing output dir, output is a directory, every defect class incl. formatter failures) x pre-existing/absent output x flag sets, plus random configurations; non-trivial = a failing run; distinct by fault class and error list",
         "distribution": dist, "samples": samples or [{"note": "see distribution"}],
     })
-    out.assumptions = ["a failure in the middle of os.WriteFile (disk full) cannot be produced in the sandbox", "permission faults are not exercised (checks run as root)"]
+    out.assumptions = ["a write that fails half-way (disk full, RLIMIT_FSIZE) is not in the property's fault list and is not exercised: os.WriteFile is not atomic", "permission faults are not exercised (checks run as root)"]
     return out.finish()
